@@ -102,7 +102,8 @@ class C05(Prop):
                 "tsamp": rng.choice((64e-6, 1e-3, 5.12e-5, 0.000327680)),
                 "tstart": rng.choice((58000.0, 55041.5, 60123.123456789, 59999.99999999)),
                 "source": rng.choice(("J0437-4715", "B0329+54", "", "x" * 40)),
-                "az": rng.uniform(0, 360), "za": rng.uniform(0, 90), "ibeam": rng.randrange(0, 14),
+                "az": rng.uniform(0, 360), "za": rng.uniform(0, 90), "aunit": rng.choice(("deg", "deg", "rad", "hourangle", "arcmin")),
+                "ibeam": rng.randrange(0, 14),
                 "nbeams": rng.randrange(0, 14), "dm": rng.choice((0.0, 2.64476, 1234.5)), "nifs": rng.choice((1, 2, 4)),
                 "signed": rng.choice((False, True))}
 
@@ -189,8 +190,10 @@ class C05(Prop):
         try:
             h = Header(filename="x.fil", data_type="filterbank", nchans=case["nchans"], foff=case["foff"],
                        fch1=case["fch1"], nbits=case["nbits"], tsamp=case["tsamp"], tstart=case["tstart"],
-                       nsamples=0, nifs=case["nifs"], coord=coord, azimuth=Angle(case["az"] * units.deg),
-                       zenith=Angle(case["za"] * units.deg), telescope=case["telescope"], backend=case["backend"],
+                       nsamples=0, nifs=case["nifs"], coord=coord,
+                       # the pointing angles are `Angle`s of ANY unit; what is written is their value in degrees
+                       azimuth=Angle(case["az"] * units.deg).to(getattr(units, case.get("aunit", "deg"))),
+                       zenith=Angle(case["za"] * units.deg).to(getattr(units, case.get("aunit", "deg"))), telescope=case["telescope"], backend=case["backend"],
                        source=case["source"], frame=case["frame"], ibeam=case["ibeam"], nbeams=case["nbeams"],
                        dm=case["dm"], signed=case["signed"])
             p = d / "o.fil"
@@ -347,7 +350,7 @@ class C05(Prop):
                     bad.append(f"{k}: not bit-identical")
             if obs["sep_arcsec"] > 0.01:
                 bad.append(f"sky position off by {obs['sep_arcsec']:.4f} arcsec (dec read back {obs['dec_deg']:.6f} deg)")
-            if abs(obs["az"] - case["az"]) > 1e-9 or abs(obs["za"] - case["za"]) > 1e-9:
+            if abs(obs["az"] - case["az"]) > 1e-9 * (1 + case["az"]) or abs(obs["za"] - case["za"]) > 1e-9 * (1 + case["za"]):
                 bad.append("pointing angles differ")
             if obs["telescope"] != (case["telescope"] if case["telescope"] in TELESCOPES else "Fake"):
                 bad.append(f"telescope {obs['telescope']!r}")
